@@ -28,13 +28,13 @@ func c01NoSinglePoint(o *neat.Options) bool {
 
 // the crossover probabilities tried: all satisfy the condition
 var c01NoSinglePointProbs = [][3]float64{
-	{0.6, 0.4, 0},     // the quotient is 0.4/0.4 = 1
-	{0, 1, 0},         // always mateMultipointAvg
-	{1, 0.3, 0.3},     // the first comparison always succeeds (draws are < 1)
-	{0.3, 1e-300, 0},  // tiny but positive: 1e-300/1e-300 = 1
-	{0.5, 5e-324, 0},  // subnormal: still x/x = 1
-	{1.5, 0, 0},       // 0/0 = NaN, but the first comparison always succeeds
-	{0.2, 0.7, 0},     // mostly mateMultipointAvg
+	{0.6, 0.4, 0},    // the quotient is 0.4/0.4 = 1
+	{0, 1, 0},        // always mateMultipointAvg
+	{1, 0.3, 0.3},    // the first comparison always succeeds (draws are < 1)
+	{0.3, 1e-300, 0}, // tiny but positive: 1e-300/1e-300 = 1
+	{0.5, 5e-324, 0}, // subnormal: still x/x = 1
+	{1.5, 0, 0},      // 0/0 = NaN, but the first comparison always succeeds
+	{0.2, 0.7, 0},    // mostly mateMultipointAvg
 }
 
 func c01RandEpochsOptions(r *rand.Rand, k int) *neat.Options {
